@@ -1,6 +1,7 @@
 package main
 
 import (
+	"os"
 	"fmt"
 	"go/constant"
 	"go/token"
@@ -883,7 +884,7 @@ func (fr *Frame) setElemHeap(st *State, key string, elem types.Type, old, newTer
 	ef := c.eltFn(elem)
 	c.n++
 	sq, kq := fmt.Sprintf("s_q%d", c.n), fmt.Sprintf("k_q%d", c.n)
-	fr.assume(st, fmt.Sprintf("(forall ((%s Slice) (%s Int)) (! (=> (not (= (sl.arr %s) %s)) (= (%s %s %s %s) (%s %s %s %s))) :pattern ((%s %s %s %s))))",
+	fr.assumeQ(st, fmt.Sprintf("(forall ((%s Slice) (%s Int)) (! (=> (not (= (sl.arr %s) %s)) (= (%s %s %s %s) (%s %s %s %s))) :pattern ((%s %s %s %s))))",
 		sq, kq, sq, changedRef, ef, name, sq, kq, ef, old, sq, kq, ef, name, sq, kq))
 	st.heap[key] = name
 }
@@ -953,7 +954,79 @@ func (fr *Frame) assume(st *State, phi string) {
 		fr.ctx.defs = append(fr.ctx.defs, fmt.Sprintf("(assert %s)", phi))
 		return
 	}
+	if os.Getenv("GOVC_GUARD_INSIDE") != "" {
+		if g, ok := guardForall(st.pc, phi); ok {
+			fr.ctx.defs = append(fr.ctx.defs, fmt.Sprintf("(assert %s)", g))
+			return
+		}
+	}
 	fr.ctx.defs = append(fr.ctx.defs, fmt.Sprintf("(assert (=> %s %s))", st.pc, phi))
+}
+
+// guardForall moves a path condition inside a top-level quantifier with patterns: (=> pc (forall xs (! body :pattern ..)))
+// becomes (forall xs (! (=> pc body) :pattern ..)). The two are equivalent (pc does not mention the bound variables);
+// the second keeps the quantifier at top level, where the solvers instantiate it like any other axiom instead of
+// treating it as a delayed, higher-generation sub-formula.
+func guardForall(pc, phi string) (string, bool) {
+	if !strings.HasPrefix(phi, "(forall (") || !strings.HasSuffix(phi, "))") {
+		return "", false
+	}
+	// bindings: from index 8 ("(forall " is 8 chars) to its matching paren
+	depth, i := 0, 8
+	for ; i < len(phi); i++ {
+		if phi[i] == '(' {
+			depth++
+		} else if phi[i] == ')' {
+			depth--
+			if depth == 0 {
+				break
+			}
+		}
+	}
+	binds := phi[8 : i+1]
+	rest := strings.TrimSpace(phi[i+1 : len(phi)-1]) // "(! body :pattern ...)"
+	if !strings.HasPrefix(rest, "(! ") || !strings.HasSuffix(rest, ")") {
+		return "", false
+	}
+	inner := rest[3 : len(rest)-1]
+	// body = first balanced term of inner
+	j := 0
+	if inner[0] == '(' {
+		depth = 0
+		for ; j < len(inner); j++ {
+			if inner[j] == '(' {
+				depth++
+			} else if inner[j] == ')' {
+				depth--
+				if depth == 0 {
+					break
+				}
+			}
+		}
+		j++
+	} else {
+		j = strings.Index(inner, " ")
+		if j < 0 {
+			return "", false
+		}
+	}
+	body, attrs := inner[:j], inner[j:]
+	if !strings.HasPrefix(strings.TrimSpace(attrs), ":pattern") {
+		return "", false
+	}
+	return fmt.Sprintf("(forall %s (! (=> %s %s)%s))", binds, pc, body, attrs), true
+}
+
+// assumeQ: like assume, for a quantified frame fact: the path condition goes inside the quantifier, which stays at top
+// level (a quantifier nested under an implication is instantiated late by the solvers; frame facts are needed early).
+func (fr *Frame) assumeQ(st *State, phi string) {
+	if st.pc != "true" {
+		if g, ok := guardForall(st.pc, phi); ok {
+			fr.ctx.defs = append(fr.ctx.defs, fmt.Sprintf("(assert %s)", g))
+			return
+		}
+	}
+	fr.assume(st, phi)
 }
 
 func (fr *Frame) branch(st *State, cond string) {
@@ -2659,15 +2732,7 @@ func (fr *Frame) call(st *State, x *ssa.Call) bool {
 				setRes(Val{fmt.Sprintf("(sl.len %s)", a.T), x.Type()})
 			} else if mt, ok := x.Call.Args[0].Type().Underlying().(*types.Map); ok {
 				// len(m) is the cardinality of the domain: an uninterpreted function of the domain set (0 iff empty)
-				ks := c.sortOf(mt.Key())
-				card := "mcard_" + sanitize(ks)
-				if !c.dts[card] {
-					c.dts[card] = true
-					c.dtDecls = append(c.dtDecls, fmt.Sprintf("(declare-fun %s ((Array %s Bool)) Int)", card, ks),
-						fmt.Sprintf("(assert (forall ((d (Array %s Bool))) (! (>= (%s d) 0) :pattern ((%s d)))))", ks, card, card),
-						fmt.Sprintf("(assert (forall ((d (Array %s Bool)) (k %s)) (! (=> (select d k) (> (%s d) 0)) :pattern ((select d k) (%s d)))))", ks, ks, card, card),
-						fmt.Sprintf("(assert (= (%s ((as const (Array %s Bool)) false)) 0))", card, ks))
-				}
+				card := c.mcardFn(mt)
 				_, _, dom, _ := c.mapHeaps(st, mt)
 				setRes(Val{fmt.Sprintf("(%s (select %s %s))", card, dom, a.T), x.Type()})
 			} else {
@@ -3348,6 +3413,22 @@ func (fr *Frame) opaqueResults(st *State, hint string, t types.Type) []Val {
 	return vs
 }
 
+// mcardFn declares (once per key sort) the cardinality of a map's domain set.
+func (c *Ctx) mcardFn(mt *types.Map) string {
+	ks := c.sortOf(mt.Key())
+	card := "mcard_" + sanitize(ks)
+	if !c.dts[card] {
+		c.dts[card] = true
+		c.dtDecls = append(c.dtDecls, fmt.Sprintf("(declare-fun %s ((Array %s Bool)) Int)", card, ks),
+			fmt.Sprintf("(assert (forall ((d (Array %s Bool))) (! (>= (%s d) 0) :pattern ((%s d)))))", ks, card, card),
+			fmt.Sprintf("(assert (forall ((d (Array %s Bool)) (k %s)) (! (=> (select d k) (> (%s d) 0)) :pattern ((select d k) (%s d)))))", ks, ks, card, card),
+			fmt.Sprintf("(assert (= (%s ((as const (Array %s Bool)) false)) 0))", card, ks),
+			// inserting a new key adds one, re-inserting a present key changes nothing
+			fmt.Sprintf("(assert (forall ((d (Array %s Bool)) (k %s)) (! (= (%s (store d k true)) (ite (select d k) (%s d) (+ (%s d) 1))) :pattern ((%s (store d k true))))))", ks, ks, card, card, card, card))
+	}
+	return card
+}
+
 func asciiOnly(s string) bool {
 	for i := 0; i < len(s); i++ {
 		if s[i] >= 128 {
@@ -3419,7 +3500,8 @@ func (fr *Frame) assumeAllocated(st *State, r Val, bound string) {
 		return
 	}
 	if isRefType(r.Typ) {
-		fr.assume(st, fmt.Sprintf("(<= %s %s)", r.T, bound))
+		// allocated no later than bound, and so was everything it held when it was allocated
+		fr.assume(st, fmt.Sprintf("(and (<= %s %s) (<= (epochOf %s) %s))", r.T, bound, r.T, bound))
 	}
 	if _, ok := r.Typ.Underlying().(*types.Slice); ok {
 		fr.assume(st, fmt.Sprintf("(and (<= (sl.arr %s) %s) (>= (sl.len %s) 0) (>= (sl.off %s) 0))", r.T, bound, r.T, r.T))
